@@ -220,21 +220,23 @@ func (h CarHeader) Matches(other CarHeader) bool {
 		return h.Roots[0].Equals(other.Roots[0])
 	}
 
-	// Check other contains all roots.
+	// Check both headers list every root the same number of times.
+	// Containment alone is not enough when a root is repeated: [A, A] is contained in [A, B].
 	// TODO: should this be optimised for cases where the number of roots are large since it has O(N^2) complexity?
 	for _, r := range h.Roots {
-		if !other.containsRoot(r) {
+		if h.countRoot(r) != other.countRoot(r) {
 			return false
 		}
 	}
 	return true
 }
 
-func (h *CarHeader) containsRoot(root cid.Cid) bool {
+func (h *CarHeader) countRoot(root cid.Cid) int {
+	var n int
 	for _, r := range h.Roots {
 		if r.Equals(root) {
-			return true
+			n++
 		}
 	}
-	return false
+	return n
 }
